@@ -394,3 +394,54 @@ def run(rep: Report, tier: str) -> None:
 	hexpat = gm.term_patterns.get('HEX_NUMBER')
 	if hexpat is not None and 'i' in getattr(hexpat, 'flags', ()):
 		r4.note('the grammar terminal HEX_NUMBER is case-insensitive: `0X1F` is decoded with int(tokens) and refused through ValueError -> Errors.Fatal (not a wrong value)')
+	rule_literalise(rep, idx)
+
+
+def rule_literalise(rep: Report, idx: SourceIndex) -> None:
+	"""`Enum.X.value` is literalised from the member's value expression: the evaluator folds it, except that a plain literal may be emitted as written
+	(`0x10` stays hexadecimal). "As written" is the concatenated token text, which is a valid rendering of the VALUE only for a node that is one literal
+	token: for any node class with operands (a unary sign over a group, a member reference, a cast) the token text drops parentheses and names and C++
+	computes something else (`-(3 / 2)` -> `-3/2` == -1). Every site that chooses between `<value>.tokens` and `evaluator.exec(<value>)` must take the
+	tokens only under a kind test whose classes are all Literal classes of the node model."""
+	from vlib.match import atoms as atoms_
+	PY2CPP = 'rogw/tranp/implements/cpp/transpiler/py2cpp.py'
+	r = rep.rule('C17/literalised-as-written-only-for-literals', 'where Py2Cpp chooses between the token text of an enum value expression and the evaluator result, the token text is taken only under is_a(<Literal classes>) (a node with operands is always folded)', floor=1)
+	rep.consulted(PY2CPP)
+	nm = NodeModel(idx)
+	lit = nm.by_name.get('Literal')
+	m = idx.mod(PY2CPP)
+	n_sites = 0
+	for q, f in m.functions.items():
+		execs = [c_ for c_ in walk_no_nested(f.node) if isinstance(c_, ast.Call) and (attr_chain(c_.func) or '').endswith('evaluator.exec') and c_.args]
+		for ex in execs:
+			subj = unparse(ex.args[0])
+			raws = [n for n in walk_no_nested(f.node) if isinstance(n, ast.Attribute) and n.attr == 'tokens' and unparse(n.value) == subj and isinstance(n.ctx, ast.Load)]
+			if not raws:
+				n_sites += 1
+				r.ok(f'{q}:always-folded', (PY2CPP, ex.lineno))
+			for raw in raws:
+				n_sites += 1
+				key = f'{q}:{subj}.tokens'
+				known = [(deref(f.node, a), p_) for a, p_ in atoms_(f.node, raw)]
+				tests = [(a, p_) for a, p_ in known if isinstance(a, ast.Call) and ((isinstance(a.func, ast.Attribute) and a.func.attr == 'is_a' and unparse(a.func.value) == subj) or (isinstance(a.func, ast.Name) and a.func.id == 'isinstance' and a.args and unparse(a.args[0]) == subj))]
+				pos = [a for a, p_ in tests if p_]
+				if not pos or lit is None:
+					r.skip(key, (PY2CPP, raw.lineno), f'the token text of `{subj}` is used under conditions that are no kind test on it: {[unparse(a)[:50] for a, _ in known][:4]}')
+					continue
+				bad = []
+				for a in pos:
+					specs = a.args if isinstance(a.func, ast.Attribute) else (list(a.args[1].elts) if isinstance(a.args[1], ast.Tuple) else [a.args[1]])
+					for sp in specs:
+						c_ = idx.resolve_class(m, sp)
+						if c_ is None:
+							bad.append((unparse(sp), 'unresolved'))
+						elif lit not in idx.mro(c_):
+							bad.append((c_.name, 'not a Literal class'))
+				if any(w == 'unresolved' for _, w in bad):
+					r.skip(key, (PY2CPP, raw.lineno), f'kind test names classes this check cannot resolve: {bad}')
+				elif bad:
+					r.violate(key, (PY2CPP, raw.lineno), f'{q} emits `{subj}.tokens` (the expression as written) when `{subj}` is a {"/".join(n for n, _ in bad)}: that node class has operands, its concatenated tokens drop parentheses and member names (`-(3 / 2)` is written `-3/2`, which C++ evaluates to -1 while Python gives -1.5; `-P` names a member that does not exist in C++), so the literalised value differs from the value CPython computes; only Literal nodes may bypass the evaluator', unparse(raw)[:100])
+				else:
+					r.ok(key, (PY2CPP, raw.lineno))
+	if n_sites == 0:
+		r.skip('evaluator-sites', (PY2CPP, 1), 'no call of evaluator.exec found in Py2Cpp')
